@@ -1,10 +1,15 @@
 (* C16 — wire format, model runner and the trace oracle prop_ok. Definitions only.
 
-   case  = k local nmgr (peer v)*  nknown peer*  nevents event*
+   case  = k local nmgr (peer v)*  nknown peer*  cap  mode  [mode 1: nkeys (peer b0..b31)*]  nevents event*
+           (mode 1 = composed model: the routing table and the store are computed, the events may be the
+            user-level events 14-17 below and the trace has the composed group format)
+           (cap = 0: the shipped event channel, never full in a case; cap > 0: an event channel of cap slots,
+            the user receives with event 13 and the trace has the bounded group format)
            (known: peers put into the routing table before the first event; the routing table is
             not modelled, its answers are the seeds / peer lists written into the events)
    event = 0 q ctag qtag qn local ndists d* nseeds s*     user command; ctag 0 find_node, 1 put_record,
-                                                          2 start_providing, 3 get_record, 4 get_providers;
+                                                          2 start_providing, 3 get_record, 4 get_providers,
+                                                          5 provider refresh (started by the store, id from the counter);
                                                           quorum qtag 0 All, 1 One, 2 N(qn)
          | 1 q qtag qn npeers p*                          put_record_to_peers (peers the routing table knows)
          | 2                                              command without a query
@@ -14,6 +19,9 @@
          | 12 id rtag how [msg]                           executor completion; rtag 0 SendSuccess, 1 AssumeSendSuccess,
                                                           2 SendFailure, 3 ReadFailure, 4 ReadSuccess msg;
                                                           how 1: produced by the 15 s timeout (ignored by the model)
+         | 14 q uctag qtag qn rk t0..t31 | 15 q qtag qn rk ngiven p* | 16 rk | 17 p addr     (mode 1: command with
+                                                          its 256-bit target key, put_record_to_peers with the GIVEN
+                                                          peers, store_record, add_known_peer)
    msg   = 0 npeers p* | 1 | 2 haskey recflag recid npeers p* | 3 valid
          | 4 haskey nprov (peer naddr addr* )* npeers p* | 5
    trace = 1 group*     one group per event of `select!` (the event, then the drain that follows)
@@ -27,11 +35,16 @@
 From Coq Require Import List NArith Bool.
 From V.gen Require Consts.
 From V.common Require Import Wire.
-From V.C16 Require Import Model.
+From V.C16 Require Import Model Compose.
 Import ListNotations.
 Open Scope N_scope.
 
-Record case := mkCase { k_g : gcfg; k_mgr : list (N * N); k_events : list ev }.
+Record case := mkCase {
+  k_g : gcfg; k_mgr : list (N * N); k_known : list N; k_cap : N;
+  k_keys : list (N * key);            (* compose mode: peer label -> 256-bit key; [] = base mode *)
+  k_events : list bev;
+  k_uevents : list uev                (* compose mode *)
+}.
 
 (* count-prefixed list with a constant bound on the count (Wire.plist measures the remaining input
    on every call, which is quadratic on the long traces of this property) *)
@@ -61,8 +74,7 @@ Definition p_msg : parser msg :=
   | _ => pfail
   end.
 
-Definition p_event : parser ev :=
-  let* tag := pN in
+Definition p_ev (tag : N) : parser ev :=
   match tag with
   | 0 => let* q := pN in let* ctag := pN in let* qtag := pN in let* qn := pN in let* local := pBool in
          let* dists := plist pN in let* seeds := plist pN in
@@ -73,6 +85,7 @@ Definition p_event : parser ev :=
          | 2 => pret (ECmd q (CStartProviding qr) dists seeds)
          | 3 => pret (ECmd q (CGetRecord qr local) dists seeds)
          | 4 => pret (ECmd q CGetProviders dists seeds)
+         | 5 => pret (ECmd q (CRefresh qr) dists seeds)
          | _ => pfail
          end
   | 1 => let* q := pN in let* qtag := pN in let* qn := pN in let* ps := plist pN in
@@ -96,15 +109,62 @@ Definition p_event : parser ev :=
           | 4 => let* m := p_msg in pret (EFut id (RRead m))
           | _ => pfail
           end
+  | 18 => let* d := pN in pret (ETick d)
   | _ => pfail
+  end.
+
+Definition p_event : parser bev :=
+  let* tag := pN in
+  match tag with
+  | 13 => pret BRecv
+  | _ => let* e := p_ev tag in pret (BEv e)
+  end.
+
+(* a byte as 8 bits, most significant first *)
+Definition byte_bits (b : N) : list bool :=
+  map (fun i => N.testbit b i) [7; 6; 5; 4; 3; 2; 1; 0].
+Definition p_key : parser key :=
+  let* bytes := prep 32 pN in pret (flat_map byte_bits bytes).
+
+Definition p_uev : parser uev :=
+  let* tag := pN in
+  match tag with
+  | 14 => let* q := pN in let* uc := pN in let* qtag := pN in let* qn := pN in let* rk := pN in
+          let* target := p_key in
+          let qr := quorum_of qtag qn in
+          match uc with
+          | 0 => pret (UCmd q UCFind target)
+          | 1 => pret (UCmd q (UCPut qr rk) target)
+          | 2 => pret (UCmd q (UCProv qr) target)
+          | 3 => pret (UCmd q (UCGet qr rk) target)
+          | 4 => pret (UCmd q UCGetProv target)
+          | 5 => pret (UCmd q (UCRefresh qr) target)
+          | _ => pfail
+          end
+  | 15 => let* q := pN in let* qtag := pN in let* qn := pN in let* rk := pN in let* ps := plist pN in
+          pret (UPutToPeers q (quorum_of qtag qn) rk ps)
+  | 16 => let* rk := pN in pret (UStoreRecord rk)
+  | 17 => let* p := pN in let* a := pBool in pret (UAddKnownPeer p a)
+  | _ => let* e := p_ev tag in pret (UEv e)
   end.
 
 Definition p_case : parser case :=
   let* k := pN in let* local := pN in
   let* m := plist p_pair in
-  let* _known := plist pN in
-  let* evs := plist p_event in
-  pret (mkCase (mkG k V.gen.Consts.PARALLELISM_FACTOR local) m evs).
+  let* known := plist pN in
+  let* cap := pN in
+  let* mode := pN in
+  (* mode: bit 0 = composed case, bit 1 = the peer timeout is zero (every pending peer of an earlier
+     next_action call is stale) instead of unreachable *)
+  let g := mkG k V.gen.Consts.PARALLELISM_FACTOR local (if N.testbit mode 1 then 0 else BIG) in
+  if negb (N.testbit mode 0) then
+    let* evs := plist p_event in pret (mkCase g m known cap [] evs [])
+  else
+    let* keys := plist (let* p := pN in let* ky := p_key in pret (p, ky)) in
+    let* uevs := plist p_uev in pret (mkCase g m known cap keys [] uevs).
+
+Definition plain_events (l : list bev) : list ev :=
+  map (fun b => match b with BEv e => e | BRecv => ENop end) l.
 
 Definition decode_case (l : list N) : option case := pall p_case l.
 
@@ -180,13 +240,95 @@ Fixpoint run_groups (g : gcfg) (s : st) (open : bool) (ok : bool) (outs : list o
   | [] => if open then flush s ok outs else []
   | e :: t =>
       let '(s1, o, f) := step g s e in
-      if is_serve e then run_groups g s1 open (ok && f) (outs ++ o) t
+      if is_tick e then run_groups g s1 open ok outs t
+      else if is_serve e then run_groups g s1 open (ok && f) (outs ++ o) t
       else (if open then flush s ok outs else []) ++ run_groups g s1 true f o t
   end.
 
+(* bounded channel: group = ok parked nrecv out* [dump]   (dump only when the loop is not parked) *)
+Definition parked (b : bst) : bool := match b_back b with [] => false | _ => true end.
+Definition flush_b (b : bst) (ok : bool) (rcv : list out) : list N :=
+  b2n (ok && (parked b || quiescent (b_st b))) :: b2n (parked b) :: enc_list enc_out rcv ++
+  (if parked b then [] else dump (b_st b)).
+
+Definition bev_serve (e : bev) : bool := match e with BEv e' => is_serve e' | BRecv => false end.
+Definition bev_tick (e : bev) : bool := match e with BEv e' => is_tick e' | BRecv => false end.
+
+Fixpoint run_groups_b (g : gcfg) (cap : nat) (b : bst) (open : bool) (ok : bool) (rcv : list out)
+         (es : list bev) : list N :=
+  match es with
+  | [] => if open then flush_b b ok rcv else []
+  | e :: t =>
+      let '(b1, r, f) := bstep g cap b e in
+      if bev_tick e then run_groups_b g cap b1 open ok rcv t
+      else if bev_serve e then run_groups_b g cap b1 open (ok && f) (rcv ++ r) t
+      else (if open then flush_b b ok rcv else []) ++ run_groups_b g cap b1 true f r t
+  end.
+
+(* composed model: group = ok nouts out* dump rtdump storedump
+   rtdump = nbuckets, then per bucket: index nnodes, then per node: peer addr conn;
+   storedump = nkeys, then the keys, sorted *)
+Definition conn_code (c : V.C14.Model.conn) : N :=
+  match c with
+  | V.C14.Model.NotConnected => 0 | V.C14.Model.Connected => 1
+  | V.C14.Model.CanConnect => 2 | V.C14.Model.CannotConnect => 3
+  end.
+Fixpoint rt_rows (keys : list (N * key)) (i : nat) (t : table) : list (list N) :=
+  match t with
+  | [] => []
+  | b :: r =>
+      match b with
+      | [] => rt_rows keys (S i) r
+      | _ => (N.of_nat i :: enc_list (fun n : node => [peer_of keys (V.C14.Model.n_key n);
+                                                       b2n (V.C14.Model.n_addr n);
+                                                       conn_code (V.C14.Model.n_conn n)]) b)
+             :: rt_rows keys (S i) r
+      end
+  end.
+Definition dump_w (wc : wcfg) (w : world) : list N :=
+  dump (w_st w) ++ enc_list (fun r : list N => r) (rt_rows (wc_keys wc) 0 (w_rt w)) ++
+  enc_ns (sortN (map V.C17.Model.r_key (V.C17.Model.recs (w_store w)))).
+
+Definition flush_c (wc : wcfg) (w : world) (ok : bool) (outs : list out) : list N :=
+  b2n (ok && quiescent (w_st w)) :: enc_list enc_out outs ++ dump_w wc w.
+
+Definition uev_serve (u : uev) : bool := match u with UEv e => is_serve e | _ => false end.
+Definition uev_tick (u : uev) : bool := match u with UEv e => is_tick e | _ => false end.
+
+Fixpoint run_groups_c (wc : wcfg) (w : world) (open : bool) (ok : bool) (outs : list out)
+         (us : list uev) : list N :=
+  match us with
+  | [] => if open then flush_c wc w ok outs else []
+  | u :: t =>
+      let '(w1, o, f) := cstep wc w u in
+      if uev_tick u then run_groups_c wc w1 open ok outs t
+      else if uev_serve u then run_groups_c wc w1 open (ok && f) (outs ++ o) t
+      else (if open then flush_c wc w ok outs else []) ++ run_groups_c wc w1 true f o t
+  end.
+
+(* the peer labels of the case: every label with a key, but the local one *)
+Definition pool_of (k : case) : list N :=
+  filter (fun p => negb (p =? g_local (k_g k))) (map fst (k_keys k)).
+Definition wcfg_of (k : case) : wcfg :=
+  mkWC (k_g k) (k_keys k) (pool_of k) 20
+       (V.C17.Model.mkCfg V.gen.Consts.DEFAULT_MAX_RECORDS V.gen.Consts.DEFAULT_MAX_RECORD_SIZE_BYTES
+                          V.gen.Consts.DEFAULT_MAX_PROVIDER_KEYS V.gen.Consts.DEFAULT_MAX_PROVIDER_ADDRESSES
+                          V.gen.Consts.DEFAULT_MAX_PROVIDERS_PER_KEY 1000000)
+       BIG.
+
+(* the peers added to the routing table before the first event *)
+Definition world0 (k : case) : world :=
+  let wc := wcfg_of k in
+  fold_left (fun w p => fst (fst (cstep wc w (UAddKnownPeer p true)))) (k_known k) (w0 wc (k_mgr k) 256).
+
 Definition run_case (l : list N) : list N :=
   match decode_case l with
-  | Some k => 1 :: run_groups (k_g k) (st0 (k_mgr k)) false true [] (k_events k)
+  | Some k =>
+      if negb (match k_keys k with [] => true | _ => false end)
+      then 3 :: run_groups_c (wcfg_of k) (world0 k) false true [] (k_uevents k)
+      else if k_cap k =? 0
+      then 1 :: run_groups (k_g k) (st0 (k_mgr k)) false true [] (plain_events (k_events k))
+      else 2 :: run_groups_b (k_g k) (N.to_nat (k_cap k)) (b0 (k_mgr k)) false true [] (k_events k)
   | None => [0]
   end.
 
@@ -261,7 +403,7 @@ Definition decode_trace (t : list N) : option (list group) :=
 
 (* ---- the oracle: the property text judged on a trace ---- *)
 (* the select! events of the case, in order (one per group) *)
-Definition sel_events (es : list ev) : list ev := filter (fun e => negb (is_serve e)) es.
+Definition sel_events (es : list ev) : list ev := filter (fun e => negb (is_serve e || is_tick e)) es.
 
 Definition started_ids (es : list ev) : list N :=
   flat_map (fun e => match started_by e with Some q => [q] | None => [] end) es.
@@ -365,10 +507,52 @@ Fixpoint owes (sel : list ev) (grs : list group) (conn od ans : list N) (prev : 
 Fixpoint last_error {A} (l : list A) : option A :=
   match l with [] => None | [x] => Some x | _ :: t => last_error t end.
 
-Definition prop_ok (c t : list N) : bool :=
-  match decode_case c, decode_trace t with
-  | Some k, Some grs =>
-      let es := k_events k in
+(* bounded traces *)
+Record groupb := mkGroupB { gb_parked : bool; gb_rcv : list out; gb_dump : option dview }.
+Definition p_groupb : parser groupb :=
+  let* _ok := pBool in let* pk := pBool in let* rcv := plist p_out in
+  if pk then pret (mkGroupB true rcv None)
+  else let* d := p_dump in pret (mkGroupB false rcv (Some d)).
+Fixpoint p_groupsb (fuel : nat) : parser (list groupb) :=
+  fun l =>
+    match l with
+    | [] => Some ([], [])
+    | _ => match fuel with
+           | O => None
+           | S f => (let* gr := p_groupb in let* t := p_groupsb f in pret (gr :: t)) l
+           end
+    end.
+Definition decode_trace_b (t : list N) : option (list groupb) :=
+  match t with
+  | 2 :: r => pall (p_groupsb (length r)) r
+  | _ => None
+  end.
+
+Fixpoint last_opt {A} (l : list A) : option A :=
+  match l with [] => None | [x] => Some x | _ :: t => last_opt t end.
+
+(* what the user RECEIVED is judged: at most one terminal event per operation, none for unknown ids;
+   when the case ends with the loop waiting in select!, nothing pending in the glue maps and an empty
+   channel (the last receive returned nothing), every started operation has reported *)
+Definition prop_ok_b (k : case) (grs : list groupb) : bool :=
+  let es := plain_events (k_events k) in
+  let outs := flat_map gb_rcv grs in
+  let ids := started_ids es in
+  forallb (fun q => Nat.leb (count_terms q outs) 1) ids &&
+  forallb (fun o => match term_of o with Some q => nmem q ids | None => true end) outs &&
+  match last_opt grs, last_opt (k_events k) with
+  | Some gr, Some BRecv =>
+      match gb_dump gr, gb_rcv gr with
+      | Some d, [] =>
+          if (match d_dials d with [] => true | _ => false end) &&
+             (match d_subs d with [] => true | _ => false end) && (d_nfuts d =? 0)
+          then forallb (fun q => Nat.eqb (count_terms q outs) 1) ids else true
+      | _, _ => true
+      end
+  | _, _ => true
+  end.
+
+Definition prop_ok_u (es : list ev) (grs : list group) : bool :=
       let outs := flat_map gr_outs grs in
       let ids := started_ids es in
       (* one group per select! event *)
@@ -380,9 +564,67 @@ Definition prop_ok (c t : list N) : bool :=
       (if owes (sel_events es) grs [] [] [] dv0 then true
        else forallb (fun q => Nat.eqb (count_terms q outs) 1) ids) &&
       (* quorum honesty *)
-      honest es (sel_events es) grs [] [] []
-  | Some _, None => false
-  | None, _ => true
+      honest es (sel_events es) grs [] [] [].
+
+(* composed traces: the group carries the routing-table and store dumps after the glue dump *)
+Definition p_rt_row : parser unit := let* _ := pN in let* _ := plist p_triple in pret tt.
+Definition p_group_c : parser group :=
+  let* ok := pBool in let* outs := plist p_out in let* d := p_dump in
+  let* _ := plist p_rt_row in let* _ := plist pN in pret (mkGroup ok outs d).
+Fixpoint p_groups_c (fuel : nat) : parser (list group) :=
+  fun l =>
+    match l with
+    | [] => Some ([], [])
+    | _ => match fuel with
+           | O => None
+           | S f => (let* gr := p_group_c in let* t := p_groups_c f in pret (gr :: t)) l
+           end
+    end.
+Definition decode_trace_c (t : list N) : option (list group) :=
+  match t with
+  | 3 :: r => pall (p_groups_c (length r)) r
+  | _ => None
+  end.
+
+(* the user events as Model.v events, without the computed fields (the oracle reads ids, quorums,
+   and the environment's answers only) *)
+Definition skeleton (u : uev) : ev :=
+  match u with
+  | UCmd q UCFind _ => ECmd q CFindNode [] []
+  | UCmd q (UCPut qr _) _ => ECmd q (CPutRecord qr) [] []
+  | UCmd q (UCProv qr) _ => ECmd q (CStartProviding qr) [] []
+  | UCmd q (UCGet qr _) _ => ECmd q (CGetRecord qr false) [] []
+  | UCmd q UCGetProv _ => ECmd q CGetProviders [] []
+  | UCmd q (UCRefresh qr) _ => ECmd q (CRefresh qr) [] []
+  | UPutToPeers q qr _ ps => EPutToPeers q qr ps
+  | UStoreRecord _ | UAddKnownPeer _ _ => ENop
+  | UEv e => e
+  end.
+
+(* put_record_to_peers sends the record to peers the user named, and to nobody else *)
+Definition named (us : list uev) (grs : list group) : bool :=
+  let outs := flat_map gr_outs grs in
+  forallb (fun u => match u with
+                    | UPutToPeers q _ _ given =>
+                        match find_track q outs with
+                        | Some targets => forallb (fun p => nmem p given) targets
+                        | None => true
+                        end
+                    | _ => true
+                    end) us.
+
+Definition prop_ok (c t : list N) : bool :=
+  match decode_case c with
+  | Some k =>
+      if negb (match k_keys k with [] => true | _ => false end)
+      then match decode_trace_c t with
+           | Some grs => prop_ok_u (map skeleton (k_uevents k)) grs && named (k_uevents k) grs
+           | None => false
+           end
+      else if k_cap k =? 0
+      then match decode_trace t with Some grs => prop_ok_u (plain_events (k_events k)) grs | None => false end
+      else match decode_trace_b t with Some grs => prop_ok_b k grs | None => false end
+  | None => true
   end.
 
 Definition known_class (c t : list N) : N := 0.
